@@ -767,6 +767,64 @@ def observe_parser(path):
         return None
 
 
+class AuthSession:
+    """A working directory with image files; repeated `signapp message` invocations in it, the -o
+    paths possibly holding an authorization already (written here by an independent encoder)."""
+
+    OUT_NAMES = {1: "auth.json", 2: os.path.join("out", "signer_auth.json")}
+
+    def __init__(self, root, layouts, contents, pre, rng):
+        install_boundary()
+        self.root = root
+        os.makedirs(os.path.join(root, "out"), exist_ok=True)
+        self.contents = list(contents)
+        self.img_paths = {}
+        for i, lay in enumerate(layouts, 1):
+            self.img_paths[i] = "app%d.hex" % i
+            write_hex(lay, os.path.join(root, self.img_paths[i]))
+        self.expected = [None] * max(self.contents)
+        for i, c in enumerate(self.contents, 1):
+            self.expected[c - 1] = oracle_digest(layouts[i - 1])
+        # what the -o paths hold beforehand: an authorization for an image that is none of ours
+        for n, st in enumerate(pre, 1):
+            if st.get("found"):
+                other = bytes(rng.randrange(256) for _ in range(32))
+                doc = {"version": 1, "signer": {"hash": other.hex(), "iteration": int(st.get("gotiter", 7))},
+                       "signatures": list(st.get("signatures", []))}
+                with open(os.path.join(root, self.OUT_NAMES[n]), "w") as f:
+                    f.write(json.dumps(doc, indent=2) + "\n")
+
+    def step(self, img, iteration, out, relative=True):
+        import signapp
+        root = self.root
+
+        def arg(rel):
+            return rel if relative else os.path.join(root, rel)
+        argv = ["signapp.py", "message", "-a", arg(self.img_paths[img]), "-i", str(iteration)]
+        if out:
+            argv += ["-o", arg(self.OUT_NAMES[out])]
+        with Patched(argv, root) as p:
+            code, exc = _call_main(signapp)
+        text = p.out.getvalue()
+        hx, it = None, -1
+        if out:
+            try:
+                with open(os.path.join(root, self.OUT_NAMES[out])) as f:
+                    doc = json.load(f)
+                hx, it = doc["signer"]["hash"], doc["signer"]["iteration"]
+            except Exception:
+                hx = None
+        else:
+            m = re.search(r"RSK_powHSM_signer_([0-9a-fA-F]{64})_iteration_(\d+)\s*$", text, re.M)
+            if m:
+                hx, it = m.group(1), int(m.group(2))
+        found = isinstance(hx, str) and re.fullmatch(r"[0-9a-fA-F]{64}", hx) is not None \
+            and isinstance(it, int) and not isinstance(it, bool)
+        st = {"img": img, "iter": int(iteration), "out": out, "exit": code, "found": bool(found),
+              "hash": list(bytes.fromhex(hx)) if found else [], "gotiter": it if found else -1}
+        return st, {"argv": argv, "stdout": text[-400:], "exc": exc}
+
+
 def child_main():
     """Entry of the child interpreter: argv = [-c, recfile, script, tool args...]."""
     import runpy
